@@ -1113,6 +1113,26 @@ func (c *FnCtx) execRange(x *ast.RangeStmt, st *State) []Out {
 
 // ---- ghost statements ----
 
+// hasSite: does the contract attach anything to this site?
+func (c *FnCtx) hasSite(site string) bool {
+	for _, u := range c.spec.Uses {
+		if u.At == site {
+			return true
+		}
+	}
+	for _, g := range c.spec.Ghosts {
+		if g.At == site {
+			return true
+		}
+	}
+	for _, a := range c.spec.Asserts {
+		if a.At == site {
+			return true
+		}
+	}
+	return false
+}
+
 func (c *FnCtx) runGhosts(st *State, site string, pos token.Pos) {
 	for _, u := range c.spec.Uses {
 		if u.At != site {
